@@ -9,7 +9,8 @@ Case kinds (field 'kind'):
           raw 'qs'/'body'); query / forms / params are read in the generated 'order' (with repeats) and every
           read is observed; the oracle also reads each accessor on a fresh request.  With 'ops' instead of
           'order' the operations also REPLACE the query string (request['QUERY_STRING'] = ...) and the body
-          (request['wsgi.input'] = BytesIO(...), request['CONTENT_LENGTH'] = ...) between reads
+          (request['wsgi.input'] = BytesIO(...), request['CONTENT_LENGTH'] = ...) between reads, and read the raw
+          body partly or fully (request.body.read(n), op 'read_body') before asking for forms / params
   frame   END TO END: the urlencoded body ('pairs' encoded with urlencode, or raw 'text') travels through a
           fragmenting wsgi.input (props.common.FragStream, schedule 'sched') under Content-Length or chunked
           framing ('data' = the bytes on the wire), with max_memfile_size 'buf' / max_body_size 'maxb' around
@@ -39,7 +40,8 @@ RULE = ('cases = corpus + random: (a) round trips: 0..6 pairs over an alphabet r
         'reading request.forms; (a2) ONE request with query string and urlencoded body (keys shared between both sides), '
         'query/forms/params read in a generated order with repeats, and in the "ops" form interleaved with '
         'replacements of the query string (request["QUERY_STRING"] = ...) and of the body (request["wsgi.input"], '
-        'request["CONTENT_LENGTH"] in either order); every read observed and compared with the grouping/merge of '
+        'request["CONTENT_LENGTH"] in either order) and with partial / full raw reads request.body.read(n) before '
+        'forms / params; every read observed and compared with the grouping/merge of '
         'what the request carries at that moment and with a fresh request carrying it; (c) primitives: utf8 encode / strict decode / replace decode on boundary code points and '
         'malformed byte strings, quote / quote_plus / unquote / unquote_to_bytes / urlencode. thorough adds every '
         'raw string of length <= 5 over "a=&+%4" through parse_qsl and Request.query, and every byte string of length <= 3 '
@@ -167,8 +169,8 @@ def seq_ops(qpairs, bpairs, ops, spelling='plus'):
     conv = lambda ps: [[S(k), S(v)] for k, v in ps]
     out = []
     for o in ops:
-        if o[0] == 'read':
-            out.append(['read', o[1]])
+        if o[0] in ('read', 'read_body'):
+            out.append([o[0], o[1]])
         elif o[0] == 'set_qs':
             out.append(['set_qs', S(pairs_text(conv(o[1]), spelling).decode('ascii')), conv(o[1])])
         else:
@@ -218,6 +220,15 @@ def corpus():
                 [('read', 'params'), ('set_body', [('y', '2')], 1), ('read', 'params'), ('read', 'forms'),
                  ('set_qs', []), ('read', 'query'), ('read', 'params')]),
         seq_ops([('a', '1')], [('x', '1')], [('set_qs', [('b', '2')]), ('set_body', [('y', '2')]), ('read', 'params')]),
+        # the raw body is read first (signature check, logging hook), then the forms (seeded edit: _get_body_string
+        # without its rewind parses only the unread tail)
+        seq_ops([], [('k y', 'v+1'), ('na=me', 'Zoë & co'), ('p%', '100%'), ('k y', '中文')],
+                [('read_body', -1), ('read', 'forms')]),
+        seq_ops([('q', '1')], [('k y', 'v+1'), ('na=me', 'Zoë & co'), ('p%', '100%'), ('k y', '中文')],
+                [('read_body', 10), ('read', 'params'), ('read_body', 3), ('read', 'forms')], 'quote'),
+        seq_ops([('a', '1')], [('x', '1')],
+                [('read', 'forms'), ('set_body', [('y', '2'), ('y', '3')]), ('read_body', 4), ('read', 'forms'),
+                 ('read_body', -1), ('read', 'params')]),
         dict(kind='seq', qs=S('a=%e9&&=v'), body=S('b=1'),
              ops=[['read', 'query'], ['set_qs', S('%zz=1&a'), None], ['read', 'query'], ['read', 'params'],
                   ['set_body', S('c==2&%'), None, 0], ['read', 'forms'], ['read', 'params']]),
@@ -337,12 +348,14 @@ def gen_seq_ops(rng):
     ops = []
     for _ in range(rng.randrange(3, 9)):
         r = rng.random()
-        if r < 0.6:
-            ops.append(['read', rng.choice(['query', 'forms', 'params', 'params'])])
-        elif r < 0.8:
+        if r < 0.5:
+            ops.append(['read', rng.choice(['query', 'forms', 'forms', 'params', 'params'])])
+        elif r < 0.65:
             ops.append(['set_qs'] + list(new_qs()))
-        else:
+        elif r < 0.8:
             ops.append(['set_body'] + list(new_body()) + [rng.randrange(2)])
+        else:
+            ops.append(['read_body', rng.choice([-1, -1, 0, 1, 2, 3, 5, 10, 1000])])
     ops.append(['read', rng.choice(['query', 'forms', 'params'])])
     if by_pairs:
         return dict(kind='seq', spelling=spelling, qpairs=some_pairs(), bpairs=some_pairs(), ops=ops)
@@ -540,11 +553,14 @@ def fresh_read(qs, body, a):
 
 def run_seq_ops(case):
     qs, body = seq_strings(case)
-    reads, fresh = [], []
+    reads, fresh, raw = [], [], []
     try:
         rq = seq_request(qs, body)
         for o in case['ops']:
-            if o[0] == 'read':
+            if o[0] == 'read_body':
+                got = rq.body.read() if o[1] < 0 else rq.body.read(o[1])
+                raw.append([list(got), list(body if o[1] < 0 else body[:o[1]])])
+            elif o[0] == 'read':
                 reads.append([o[1], dump_dict(getattr(rq, o[1]))])
                 fresh.append(fresh_read(qs, body, o[1]))         # a request that carries the current strings
             elif o[0] == 'set_qs':
@@ -560,7 +576,7 @@ def run_seq_ops(case):
                     rq['CONTENT_LENGTH'] = str(len(body))
     except Exception as e:
         return dict(status='raised', exc=type(e).__name__)
-    return dict(status='ok', reads=reads, fresh=fresh)
+    return dict(status='ok', reads=reads, fresh=fresh, raw=raw)
 
 
 def run_seq(case):
@@ -659,6 +675,8 @@ def encode(case):
         def enc_op(o):
             if o[0] == 'read':
                 return [0, KIND_CODE[o[1]]]
+            if o[0] == 'read_body':
+                return [3, o[1]]
             return [1 if o[0] == 'set_qs' else 2] + enc_str(o[1])
         return [6] + enc_str(S(qs)) + enc_str(body) + enc_list(case['ops'], enc_op)
     if case['kind'] == 'seq':
@@ -822,8 +840,13 @@ def oracle_seq_ops(case, obs):
     qp, bp = case.get('qpairs'), case.get('bpairs')       # the pairs the request carries at this moment (None: raw)
     n = 0
     history = []
+    for got, want in obs.get('raw', []):
+        if got != want:
+            return 'request.body.read returned %d bytes, expected %d (the body the request carries)' % (len(got), len(want))
     for o in case['ops']:
-        if o[0] == 'set_qs':
+        if o[0] == 'read_body':
+            history.append('body.read(%d)' % o[1])
+        elif o[0] == 'set_qs':
             qp = o[2]
             history.append('set_qs')
         elif o[0] == 'set_body':
@@ -881,7 +904,8 @@ def nontrivial(case, obs):
     if case['kind'] == 'seq' and 'ops' in case:
         kinds = [o[0] for o in case['ops']]
         first_set = min([i for i, k in enumerate(kinds) if k != 'read'], default=None)
-        return first_set is not None and 'read' in kinds[:first_set] and 'read' in kinds[first_set:]
+        return first_set is not None and 'read' in kinds[first_set:] and \
+            ('read' in kinds[:first_set] or kinds[first_set] == 'read_body')
     if case['kind'] == 'seq':
         o = case['order']
         later = any(a in ('query', 'forms') and 'params' in o[:i] for i, a in enumerate(o))
@@ -949,7 +973,7 @@ def shrink(case):
                 yield dict(case, **{f: o[:i] + o[i + 1:]})
         if 'ops' in case and 'qpairs' in case:
             for i, op in enumerate(o):
-                if op[0] != 'read':
+                if op[0] in ('set_qs', 'set_body'):
                     for j in range(len(op[2])):
                         ps = op[2][:j] + op[2][j + 1:]
                         txt = pairs_text(ps, case['spelling'])
